@@ -10,8 +10,9 @@
 //                               ordinary Destroy/SpanDestroy events, "cl":1)
 //       --probe-mod M: only every M-th requested probe is made; the run always ends
 //       with both probes in the initial state.
-//   ptr_driver --random --seed S --seqs K --ops L --probe-pct P --out <ndjson> --nw .. --n ..
+//   ptr_driver --random --seed S --seqs K --ops L --probe-pct P --out <ndjson> --nw .. --n .. [--foreign]
 //       code -> spec: seeded random legal call sequences, recorded the same way.
+//       --foreign: a second QSBR thread holds a wrapper of its own meanwhile (see below).
 //
 // After a step the observable state is recorded: get() of every live wrapper
 // as (buffer, offset), begin().get() and size() of every live span.  A probe
@@ -29,6 +30,7 @@
 #include <sys/wait.h>
 #include <unistd.h>
 
+#include <atomic>
 #include <csignal>
 #include <cstddef>
 #include <cstdio>
@@ -38,6 +40,7 @@
 #include <new>
 #include <span>
 #include <string>
+#include <thread>
 #include <utility>
 #include <vector>
 
@@ -337,6 +340,44 @@ void crash_handler(int sig) {
   _exit(3);
 }
 
+// ---------------------------------------------------------------- foreign thread
+// --foreign: a second QSBR thread keeps a non-null wrapper of its own alive while the
+// main thread runs; on every tick it destroys it, passes through a quiescent state of
+// its own (whatever the main thread holds at that moment) and creates it again.  The
+// registries are per thread: neither thread's verdicts may depend on the other's wrappers.
+std::atomic<int> g_f_req{0}, g_f_ack{0};
+std::atomic<bool> g_f_stop{false};
+
+void foreign_body() {
+  int seen = 0;
+  {
+    P mine{&g_buf[1][0]};
+    g_f_ack.store(-1);
+    while (!g_f_stop.load()) {
+      const int r = g_f_req.load();
+      if (r == seen) {
+        std::this_thread::yield();
+        continue;
+      }
+      seen = r;
+      {
+        P gone{std::move(mine)};
+      }
+      unodb::this_thread().quiescent();
+      mine = P{&g_buf[1][0] + (r % (N + 1))};
+      g_f_ack.store(r);
+    }
+  }
+  unodb::this_thread().quiescent();
+}
+
+void foreign_tick(vh::Json& j) {
+  const int r = g_f_req.load() + 1;
+  g_f_req.store(r);
+  while (g_f_ack.load() != r) std::this_thread::yield();
+  j.begin("Foreign").num("tick", r).num("bid", g_bid).num("i", g_i).end();
+}
+
 // ---------------------------------------------------------------- random generator
 struct Cand {
   int op, x, y, z, u;
@@ -438,7 +479,7 @@ int main(int argc, char** argv) {
   long probe_mod = 1, probe_ctr = 0;  // replay: only every probe_mod-th requested probe is made
   const char* outp = nullptr;
   const char* replay = nullptr;
-  bool random_mode = false;
+  bool random_mode = false, foreign = false;
   for (int i = 1; i < argc; ++i) {
     const std::string a = argv[i];
     auto val = [&]() { return (i + 1 < argc) ? argv[++i] : "0"; };
@@ -450,6 +491,7 @@ int main(int argc, char** argv) {
     else if (a == "--out") outp = val();
     else if (a == "--replay") replay = val();
     else if (a == "--random") random_mode = true;
+    else if (a == "--foreign") foreign = true;
     else if (a == "--nw") NW = std::atoi(val());
     else if (a == "--ns") NS = std::atoi(val());
     else if (a == "--nb") NB = std::atoi(val());
@@ -498,11 +540,16 @@ int main(int argc, char** argv) {
     for (int i = 0; i < NOPS; ++i) ops += std::string("\"") + OPN[i] + "\",";
     ops += "\"ProbeRejected\",\"ProbeAccepted\"]";
     j.begin("hdr").boolean("assertions", assertions).num("NW", NW).num("NS", NS).num("NB", NB).num("N", N)
-        .raw("data", data).raw("ops", ops).str("mode", random_mode ? "random" : "replay").num("seed", static_cast<long long>(seed)).end();
+        .raw("data", data).raw("ops", ops).boolean("foreign", foreign).str("mode", random_mode ? "random" : "replay").num("seed", static_cast<long long>(seed)).end();
   }
 
   if (random_mode) {
     vh::Rng rng(seed);
+    unodb::qsbr_thread other;
+    if (foreign) {
+      other = unodb::qsbr_thread{foreign_body};
+      while (g_f_ack.load() != -1) std::this_thread::yield();
+    }
     for (long s = 0; s < seqs; ++s) {
       g_bid = s;
       g_i = 0;
@@ -511,8 +558,13 @@ int main(int argc, char** argv) {
         if (!random_step(rng, c)) break;
         const int probes = rng.chance(probe_pct) ? 3 : 0;
         if (!step(j, c.op, c.x, c.y, c.z, c.u, probes, false)) break;
+        if (foreign && rng.chance(4)) foreign_tick(j);
       }
       cleanup(j, 3);
+    }
+    if (foreign) {
+      g_f_stop.store(true);
+      other.join();
     }
   } else {
     FILE* in = std::fopen(replay, "r");
